@@ -4,6 +4,7 @@
   history_uses_returned_record : the record passed to add_history is the value returned by _atomic_status_transition
   history_names_requester      : add_history receives the requester's runner context (the one whose runner_id was validated)
   registration_writes_history  : register_new_invocations calls add_histories with the record returned by _register_new_invocations
+  mem_history_append_atomic    : MemStateBackend._add_histories stores an entry with one `self._history[i].append(e)` on a defaultdict(list)
 """
 from __future__ import annotations
 
@@ -38,15 +39,16 @@ def translate(repo: str):
     tree = ast.parse(open(f"{repo}/pynenc/orchestrator/base_orchestrator.py").read())
     fn = _method(tree, "BaseOrchestrator", "set_invocation_status")
     tops = _top_calls(fn)
-    trans = [(ln, s) for ln, k, s in tops if k == "assign" and isinstance(s.value.func, ast.Attribute)
+    trans = [(ln, s) for ln, k, s in tops if isinstance(s.value.func, ast.Attribute)
              and s.value.func.attr == "_atomic_status_transition"]
     hist = [(ln, s) for ln, k, s in tops if k == "call" and isinstance(s.value.func, ast.Attribute) and s.value.func.attr == "add_history"]
     all_hist = [n for n in ast.walk(fn) if isinstance(n, ast.Call) and isinstance(n.func, ast.Attribute) and n.func.attr in ("add_history", "add_histories")]
     if len(trans) != 1 or len(all_hist) != 1:
         raise TranslateError("set_invocation_status: expected one `x = self._atomic_status_transition(...)` and one add_history call")
     after = len(hist) == 1 and hist[0][0] > trans[0][0]
-    tgt = trans[0][1].targets[0]
-    if not isinstance(tgt, ast.Name):
+    # the record the transition returned: bound to a name, or dropped (then whatever reaches add_history is not it)
+    tgt = trans[0][1].targets[0] if isinstance(trans[0][1], ast.Assign) else None
+    if tgt is not None and not isinstance(tgt, ast.Name):
         raise TranslateError("transition result is not bound to a name")
     targs = trans[0][1].value.args
     uses = False
@@ -55,7 +57,7 @@ def translate(repo: str):
         hargs = hist[0][1].value.args
         if len(hargs) != 3:
             raise TranslateError("add_history: expected (invocation_id, record, runner_ctx)")
-        uses = isinstance(hargs[1], ast.Name) and hargs[1].id == tgt.id
+        uses = tgt is not None and isinstance(hargs[1], ast.Name) and hargs[1].id == tgt.id
         # requester: transition got <ctx>.runner_id, add_history got <ctx>
         if len(targs) == 3 and isinstance(targs[2], ast.Attribute) and targs[2].attr == "runner_id" and isinstance(targs[2].value, ast.Name):
             names_req = isinstance(hargs[2], ast.Name) and hargs[2].id == targs[2].value.id
@@ -72,7 +74,24 @@ def translate(repo: str):
         a = rh[0][1].value.args
         regok = isinstance(t, ast.Name) and len(a) == 3 and isinstance(a[1], ast.Name) and a[1].id == t.id \
             and ast.dump(a[0]) == ast.dump(rreg[0][1].value.args[0])
-    f = {"history_after_transition": after, "history_uses_returned_record": uses, "history_names_requester": names_req,
+    # the in-memory writer: `for i in ids: self._history[i].append(entry)` on a defaultdict(list) — one atomic call per entry
+    mtree = ast.parse(open(f"{repo}/pynenc/state_backend/mem_state_backend.py").read())
+    ah = _method(mtree, "MemStateBackend", "_add_histories")
+    body = [b for b in ah.body if not (isinstance(b, ast.Expr) and isinstance(b.value, ast.Constant))]
+    append_atomic = False
+    if len(body) == 1 and isinstance(body[0], ast.For) and len(body[0].body) == 1 and isinstance(body[0].body[0], ast.Expr):
+        c = body[0].body[0].value
+        append_atomic = (isinstance(c, ast.Call) and isinstance(c.func, ast.Attribute) and c.func.attr == "append"
+                         and isinstance(c.func.value, ast.Subscript) and isinstance(c.func.value.value, ast.Attribute)
+                         and c.func.value.value.attr == "_history" and len(c.args) == 1)
+    init = _method(mtree, "MemStateBackend", "__init__")
+    inits = [n for n in ast.walk(init) if isinstance(n, (ast.Assign, ast.AnnAssign)) and "_history" in ast.dump(n.targets[0] if isinstance(n, ast.Assign) else n.target)]
+    if len(inits) != 1 or inits[0].value is None:
+        raise TranslateError("MemStateBackend.__init__: expected one initialisation of _history")
+    v = inits[0].value
+    append_atomic = append_atomic and isinstance(v, ast.Call) and isinstance(v.func, ast.Name) and v.func.id == "defaultdict" \
+        and len(v.args) == 1 and isinstance(v.args[0], ast.Name) and v.args[0].id == "list"
+    f = {"mem_history_append_atomic": append_atomic, "history_after_transition": after, "history_uses_returned_record": uses, "history_names_requester": names_req,
          "registration_writes_history": regok}
     lines = ["(* GENERATED by harness/translate/history_facts.py from base_orchestrator.py *)", ""]
     for k, v in f.items():
